@@ -40,6 +40,13 @@ Theorem to_from_gcs_inverse_per_point : forall l : list (mat3 R * vec3 R * vec3 
   /\ to_gcs_each NumR (map (fun f => with_point f (from_gcs NumR (fst (fst f)) (snd (fst f)) (snd f))) l) = map snd l.
 Proof. exact from_to_gcs_each_R. Qed.
 
+(* broadcasting one frame to every point is the per-point conversion with equal frames
+   (every numeric instance, floats included) *)
+Theorem single_frame_is_broadcast : forall (T : Type) (N : Num T) (B : mat3 T) (o : vec3 T) (cs : list (vec3 T)),
+  to_gcs_each N (map (fun c => (B, o, c)) cs) = to_gcs_all N B o cs /\
+  from_gcs_each N (map (fun c => (B, o, c)) cs) = from_gcs_all N B o cs.
+Proof. exact @each_of_broadcast. Qed.
+
 (* it is enough to check that the rows (the local axes) are orthonormal *)
 Theorem orthonormal_rows_suffice : forall B, rows_orthonormal NumR B -> orthonormal NumR B.
 Proof. exact orthonormal_of_rows. Qed.
